@@ -193,17 +193,27 @@ def post(lines, verdicts):
 
 
 def extra_coverage(lines, verdicts):
-    lens = {}
-    pols = {}
+    lens, pols, tlens, results = {}, {}, {}, {}
     for ln in lines:
-        f = ln.split("|")[0].split()
-        if f and f[0] != "F":
+        case, _, obs = ln.partition("|")
+        f = case.split()
+        if not f:
+            continue
+        if f[0] == "F":
+            o = obs.split()
+            k = o.index("=>") if "=>" in o else len(o)
+            tlens[k] = tlens.get(k, 0) + 1
+            res = o[k + 1].split(":")[0] if k + 1 < len(o) else "?"
+            results[res] = results.get(res, 0) + 1
+        else:
             lens[len(f) - 2] = lens.get(len(f) - 2, 0) + 1
         if len(f) > 1:
             pols[f[1]] = pols.get(f[1], 0) + 1
     return {"census": {"enums_pinned": [n for (_, n) in CENSUS], "fiber_skeleton_tokens": len(FIBER_SKELETON),
                        "mismatches": census()},
             "history_length_histogram": {str(k): v for k, v in sorted(lens.items())},
+            "real_loop_trace_length_histogram": {str(k): v for k, v in sorted(tlens.items())},
+            "real_loop_results": results,
             "cases_per_policy": pols}
 
 
@@ -219,16 +229,26 @@ SPEC = {
              "(X3: 4 consistencies quick, 11 thorough); R = seeded random histories of length 1..8 "
              "(consistency constant / following the carried consistency / random per step; random i32 fields); "
              "each RetryDecision incl. the carried consistency is compared exactly with the model; "
-             "non-trivial = every case; distinct = distinct case lines"),
-    "nontrivial": lambda ln: True,
+             "F = the REAL execution loop (run_request_no_side_effects -> run_request_speculative_fiber, through the "
+             "verif_execution hook: scripted targets sharing one idle connection, recording retry policy): every "
+             "outcome stream of length <= 3 (quick) / 4 (thorough) over {conn-fail, success, 8 errors} x plan length "
+             "0..3 x 4 consistencies x idempotent x 3 policies, plus seeded random streams (plan <= 5, length <= plan+4, "
+             "half biased to retrying errors); events (target, consistency, error class, decision) and the result are "
+             "compared exactly with the model's fiber; non-trivial = every case except F cases with an empty plan or "
+             "an empty stream; distinct = distinct case lines"),
+    "nontrivial": lambda ln: not (ln.startswith("F ") and (len(ln.split("|")[0].split()) <= 5 or ln.split()[4] == "0")),
     "trusted_base": [
         "hook scylla::policies::retry::verif_retry::request_info (constructor of the non_exhaustive RequestInfo)",
+        "hook scylla::client::verif_execution (scripted AttemptTarget + run_request_once closure around the real "
+        "run_request_no_side_effects; one idle Connection to a silent loopback listener; the future is polled once)",
+        "the harness' recording RetryPolicy wrapper (delegates to the real session, logs error class / idempotence / consistency / decision)",
         "safe_errorb / named_unsafe_errorb are the error sets of the property text (pinned by C06_safe_set / C06_named_unsafe_set)",
         "census scanner in checks/c06.py (enum variant lists, control-flow skeleton of run_request_speculative_fiber)",
     ],
     "assumptions": [
         "the outcome stream (connection acquisition results, attempt results) is an oracle: theorems quantify over every stream",
-        "speculative execution runs several fibers, each with its own retry session (C13); C06_bound is per fiber",
+        "speculative execution runs several fibers, each with its own retry session (C13); C06_bound is per fiber; "
+        "the tie drives the single-fiber path (no speculative policy, no client timeout)",
         "new_session is pure, so creating the session lazily at the first error equals creating it up front",
     ],
     "post": post,
